@@ -464,12 +464,19 @@ def check_scripts(ctx, cases):
                           "remote files and File('-') by the result", case=case, expected=to_nv(orig), actual=impl + " :: " + bad)
 
 
+def show_v(v):
+    try:
+        return to_nv(v)
+    except Exception:  # noqa: BLE001
+        return "<%s>" % type(v).__name__
+
+
 def shape_diff(orig, final, result):
     from redun.file import File, Staging
     t = type(orig)
     if t in (list, tuple) or (isinstance(orig, tuple) and hasattr(orig, "_fields")):
         if type(final) is not t or len(final) != len(orig):
-            return "container differs: %r vs %r" % (orig, final)
+            return "container differs: %s vs %s" % (show_v(orig), show_v(final))
         for a, b in zip(orig, final):
             d = shape_diff(a, b, result)
             if d:
@@ -485,19 +492,19 @@ def shape_diff(orig, final, result):
         return None
     if isinstance(orig, Staging):
         if type(final) is not type(orig.remote) or final.path != orig.remote.path:
-            return "staging leaf %r -> %r" % (orig, final)
+            return "staging leaf %s -> %s" % (show_v(orig), show_v(final))
         return None
     if isinstance(orig, File) and orig.path == "-":
-        return None if final is result else "File('-') -> %r" % (final,)
+        return None if final is result else "File('-') -> %s" % show_v(final)
     if isinstance(orig, File):
         if type(final) is not type(orig) or final.path != orig.path:
-            return "file leaf %r -> %r" % (orig, final)
+            return "file leaf %s -> %s" % (show_v(orig), show_v(final))
         return None
-    if type(final) is not type(orig) or (final != orig and not hasattr(orig, "path")):
-        return "leaf %r -> %r" % (orig, final)
-    if hasattr(orig, "path") and final.path != orig.path:
-        return "leaf %r -> %r" % (orig, final)
-    return None
+    if type(final) is not type(orig):
+        return "leaf %s -> %s" % (show_v(orig), show_v(final))
+    if hasattr(orig, "path"):
+        return None if final.path == orig.path else "leaf %s -> %s" % (show_v(orig), show_v(final))
+    return None if final == orig else "leaf %s -> %s" % (show_v(orig), show_v(final))
 
 
 def gen_e2e(rng):
